@@ -71,6 +71,9 @@ func Dump(v interface{}) string {
 	return sb.String()
 }
 
+// loose makes an empty map print like a nil map (used where only the meaning of a model matters)
+var loose bool
+
 func dump(sb *strings.Builder, v reflect.Value, depth int) {
 	if depth > 40 {
 		sb.WriteString("<deep>")
@@ -97,7 +100,7 @@ func dump(sb *strings.Builder, v reflect.Value, depth int) {
 		}
 		sb.WriteString("}")
 	case reflect.Map:
-		if v.IsNil() {
+		if v.IsNil() || (loose && v.Len() == 0) {
 			sb.WriteString("nilmap")
 			return
 		}
@@ -317,4 +320,11 @@ func FieldDumps(v interface{}) map[string]string {
 		out[rv.Type().Field(i).Name] = sb.String()
 	}
 	return out
+}
+
+// FieldDumpsLoose is FieldDumps with empty maps rendered like nil maps. Not safe for concurrent use.
+func FieldDumpsLoose(v interface{}) map[string]string {
+	loose = true
+	defer func() { loose = false }()
+	return FieldDumps(v)
 }
